@@ -48,15 +48,17 @@ Print Assumptions C03_cmdline_define.
 (* For EVERY table of object-like macros (any number below the backstop, any
    direct or mutual recursion) whose replacement lists contain no ##, no
    `defined` and no __VA_ARGS__, built by `#define NAME body` lines, and every
-   source token list of the same kind:
+   source token list of the same kind in which, additionally, `defined X` and
+   `defined ( X )` may occur (the controlling expression of #if / #elif):
      - expansion terminates: there is n such that every fuel >= n suffices
        (the stack never reaches max_level; each push disables one more name);
-     - the result is, token for token, the one Prosser's algorithm yields.
-   Missing for the full statement: function-like macros, # and ##, `defined`
-   (covered by the differential run and refuted in the classes below). *)
+     - the result is, token for token, the one Prosser's algorithm yields after
+       `defined` has been evaluated (ISO C 6.10.1).
+   Missing for the full statement: function-like macros, # and ## (covered by
+   the differential run; refuted for S = Prosser in the corner below). *)
 Theorem C03_objlike :
   forall (ds : odefs) (input : list tok),
-    wf_defs ds = true -> forallb okd input = true ->
+    wf_defs ds = true -> wfd2 input = true ->
     S (List.length ds) < Gen.C03_tables.max_level ->
     exists tb, build_table 0 (map define_line ds) [] = inl tb /\
     exists n, forall fuel, n <= fuel ->
@@ -66,7 +68,7 @@ Theorem C03_objlike :
         run_spec fuel (stable_of_defs ds) (map btok_of input) = Ok (map sp out).
 Proof.
   intros ds input Hwf Hin Hlev. exists (mtable ds). split; [exact (build_objlike ds Hwf)|].
-  exact (objlike_main ds Hwf _ _ _ _ _ _ _ input Hin Hlev).
+  exact (objlike_defined_main ds Hwf _ _ _ _ _ _ _ input Hin Hlev).
 Qed.
 Print Assumptions C03_objlike.
 
@@ -125,13 +127,15 @@ Print Assumptions C03_repaired_defects_refuted_and_now_conform.
 (* ------------------------------------------------------------------ *)
 (* non-vacuity                                                         *)
 (* ------------------------------------------------------------------ *)
-(* mutual recursion: A -> B + A, B -> A 1 ; the hypotheses of C03_objlike hold and the expansion is non-trivial *)
+(* mutual recursion: A -> B + A, B -> A 1, with `defined ( B )` and `defined Z` in the source;
+   the hypotheses of C03_objlike hold and the expansion is non-trivial *)
 Example C03_nonvacuous_objlike :
   let ds := [("A", [tI "B"; tOw "+"; tIw "A"]); ("B", [tI "A"; tNw "1"])] in
-  let input := [tI "A"; tIw "B"] in
-  wf_defs ds = true /\ forallb okd input = true /\ S (List.length ds) < Gen.C03_tables.max_level /\
+  let input := [tI "A"; tIw "B"; tIw "defined"; tP "("; tI "B"; tP ")"; tIw "defined"; tIw "Z"] in
+  wf_defs ds = true /\ wfd2 input = true /\ S (List.length ds) < Gen.C03_tables.max_level /\
   run_spec 50 (stable_of_defs ds) (map btok_of input)
-  = Ok [(KId, "A"); (KNum, "1"); (KOp, "+"); (KId, "A"); (KId, "B"); (KOp, "+"); (KId, "A"); (KNum, "1")].
+  = Ok [(KId, "A"); (KNum, "1"); (KOp, "+"); (KId, "A"); (KId, "B"); (KOp, "+"); (KId, "A"); (KNum, "1");
+        (KNum, "1"); (KNum, "0")].
 Proof.
   cbv zeta. split; [vm_compute; reflexivity|]. split; [vm_compute; reflexivity|].
   split; [apply PeanoNat.Nat.ltb_lt; vm_compute; reflexivity|vm_compute; reflexivity].
